@@ -138,6 +138,7 @@ func (s *Stream) prepareOtherStream() {
 		tsMuxer, err2 := mpegts.NewMuxer(&s.Video, &s.Audio, sg,
 			s.logger.With(xlog.Fields(xlog.F("extra", "ts.Muxer"))))
 		if err2 != nil {
+			sg.Close() // 释放已打开的分段文件
 			return
 		}
 		s.tsMuxer = tsMuxer
